@@ -23,6 +23,7 @@ HOW TO WORK
 1. Create your own scratch worktree: `git -C /repo worktree add --detach {wt} HEAD` and work only there.
 2. Environment for every shell call: `export GOFLAGS=-mod=mod GOPROXY=off` and nothing else (do NOT set GOTOOLCHAIN or GOSUMDB). No network. Cold builds of big packages take several minutes; other jobs share the 16 cores, so use generous timeouts. Packages that import felix/bpf/libbpf (felix/bpf/{{polprog,proxy,conntrack,mock,nat,ipsets,state,maps}}, felix/routetable, felix/dataplane/linux) only build with `CGO_ENABLED=0` here.
 3. Read the anchored code, choose the change, make it.
+3b. NEVER use `git stash` (the stash is shared by every worktree of /repo and other agents are working concurrently): to compare with the unmodified tree use `git diff > /tmp/my.patch; git apply -R /tmp/my.patch; ...; git apply /tmp/my.patch`.
 4. Confirm it compiles (`go build ./<pkg>/...` and `go vet` is optional) and that the existing tests of every package you touched still pass: `go test -count=1 ./<pkg>/` (with CGO_ENABLED=0 where needed). If an existing test fails, choose a different change. (Some packages' tests need facilities missing here and fail even unmodified: check by running them on the unmodified tree too and compare.)
 5. Write a DEMONSTRATION: a new Go test file (package-internal `_test.go` placed next to the code, using only the standard `testing` package or whatever that package's tests already use) or a small program, that FAILS with your change and PASSES on the unmodified tree. Run it both ways and record the commands and outputs. The demonstration must exercise the real code and show the property's statement being violated (not merely that some internal value differs).
 6. Deliver into {out}/ (create it):
